@@ -266,6 +266,7 @@ def run(rep: Report, tier: str) -> None:
 	rule_terminal_lexing(rep, idx)
 	rule_engine_state(rep, idx)
 	rule_renderer_escapes(rep, idx)
+	rule_reader_pure(rep, idx)
 	rep.extra_coverage['programs'] = len(sync.obligations)
 	rep.extra_coverage['disagreements_checked'] = sum(1 for o in sync.obligations if o.status == 'violated')
 
@@ -342,3 +343,58 @@ def rule_renderer_escapes(rep: Report, idx) -> None:
 			if names & derived:
 				whole_tree.append(n)
 	r.check(not whole_tree, 'render_rules:escapes-per-token', rr.where, f'App.render_rules fixes the escapes with `{unparse(whole_tree[0])[:70] if whole_tree else ""}` on the text of the whole pretty-printed tree: a `\'` inside a token is indistinguishable from the delimiters, so a terminal containing a bare single quote renders to a module that does not compile', unparse(whole_tree[0])[:100] if whole_tree else '')
+
+
+def rule_reader_pure(rep: Report, idx) -> None:
+	"""`from_ast(t)` reads the tuple tree t. The lists inside t belong to the caller (the tree parsed from a .lark file is compared with the shipped tree, printed,
+	and handed to from_ast again): ASTSerializer._children returns the very list stored in the tuple, so a pop / append / del / sort on it edits the
+	caller's tree. After one from_ast the fixed point `parse(gram.lark) == gram_rules tree` no longer holds for that tree object, and a second from_ast on it
+	builds other rules (or fails)."""
+	r = rep.rule('C12/from-ast-does-not-mutate-its-input', 'no method of ASTSerializer applies an in-place list operation to a value taken from the input tree (the result of _children(...), a subscript of the tree, or a local bound to one)', floor=5)
+	m = idx.mod('rogw/tranp/implements/syntax/tranp/rule.py')
+	cls = m.cls('ASTSerializer')
+	if cls is None:
+		r.skip('ASTSerializer', (m.relpath, 1), 'ASTSerializer vanished')
+		return
+	MUT = {'pop', 'append', 'extend', 'insert', 'remove', 'clear', 'sort', 'reverse'}
+	n_methods = 0
+	for name, defs in cls.methods.items():
+		f = defs[-1]
+		params = [p_ for p_ in f.params() if p_ not in ('cls', 'self')]
+		if not params:
+			continue
+		n_methods += 1
+		tainted = set(params)
+		# locals bound to (parts of) the input without copying
+		changed = True
+		while changed:
+			changed = False
+			for st in ast.walk(f.node):
+				if isinstance(st, (ast.Assign, ast.AnnAssign)) and getattr(st, 'value', None) is not None:
+					v = st.value
+					alias = (isinstance(v, ast.Call) and unparse(v.func).endswith(('_children', '_as_tree', '_as_token', 'as_a', 'cast')) and any(isinstance(x, ast.Name) and x.id in tainted for a in v.args for x in ast.walk(a))) \
+						or (isinstance(v, ast.Subscript) and not isinstance(v.slice, ast.Slice) and any(isinstance(x, ast.Name) and x.id in tainted for x in ast.walk(v.value))) \
+						or (isinstance(v, ast.Name) and v.id in tainted)
+					for t in (st.targets if isinstance(st, ast.Assign) else [st.target]):
+						if alias and isinstance(t, ast.Name) and t.id not in tainted:
+							tainted.add(t.id)
+							changed = True
+		bad = []
+		for n in ast.walk(f.node):
+			recv = None
+			if isinstance(n, ast.Call) and isinstance(n.func, ast.Attribute) and n.func.attr in MUT:
+				recv = n.func.value
+			elif isinstance(n, ast.Delete):
+				recv = n.targets[0].value if isinstance(n.targets[0], ast.Subscript) else None
+			elif isinstance(n, (ast.Assign, ast.AugAssign)):
+				t0 = n.targets[0] if isinstance(n, ast.Assign) else n.target
+				recv = t0.value if isinstance(t0, ast.Subscript) else None
+			if recv is None:
+				continue
+			direct = isinstance(recv, ast.Name) and recv.id in tainted
+			through = isinstance(recv, ast.Call) and unparse(recv.func).endswith('_children') or (isinstance(recv, ast.Subscript) and any(isinstance(x, ast.Name) and x.id in tainted for x in ast.walk(recv)))
+			if direct or through:
+				bad.append(n)
+		r.check(not bad, f'ASTSerializer.{name}', f.where, f'ASTSerializer.{name} applies `{unparse(bad[0])[:70] if bad else ""}` to a list that lives inside the input tree: from_ast edits the tree it was given (the last entry of every repeat group disappears), so the parsed tree no longer equals the shipped one afterwards and a second from_ast on the same tree yields different rules', unparse(bad[0])[:100] if bad else '')
+	if n_methods == 0:
+		r.skip('methods', cls.where, 'ASTSerializer has no method with an input parameter')
